@@ -555,7 +555,8 @@ package pipeline
 //@   ensures result0 == (nfin == 0) && nfin <= 1
 //@   ensures !result0 ==> result1 >= 0
 //@   ensures len(p.busyActions) == len(p.actions) && len(p.actionInfos) == len(p.actions)
-//@   loop 1 invariant 0 <= index && nfin == 0 && l == len(p.actions) && len(p.busyActions) == l && len(p.actionInfos) == l
+//@   ensures len(p.busyActions) == old(len(p.busyActions))
+//@   loop 1 invariant 0 <= index && nfin == 0 && l == len(p.actions) && len(p.busyActions) == old(len(p.busyActions)) && len(p.busyActions) == l && len(p.actionInfos) == l
 //@   callee Do(e) (r)
 //@     requires e == event
 //@     ensures len(p.actions) == old(len(p.actions)) && len(p.busyActions) == old(len(p.busyActions)) && len(p.actionInfos) == old(len(p.actionInfos))
@@ -1013,3 +1014,36 @@ package pipeline
 //@     pure
 //@   callee newEvent() (e)
 //@     pure
+
+// ---------------------------------------------------------------------------
+// C01 / C02: Spawn (split).  After the children have gone through the remaining
+// actions, every action that is busy - whether a child made it busy or it was busy
+// before (it holds an event read earlier) - gets a time-out event, so that nothing is
+// still held when the parent goes to the output and is committed.  Stated at the exits:
+// either the time-out loop ran over the whole busy table, or no action is busy.
+
+//@ func (*Event).SetChildParentKind
+//@   modifies e.kind
+//@   ensures e.kind == eventKindChildParent
+
+//@ func (*Event).SetChildKind
+//@   modifies e.kind
+//@   ensures e.kind == eventKindChild
+
+//@ func (*processor).Spawn
+//@   option allow-exit yes
+//@   requires parent != nil && parent.action >= 0
+//@   requires len(p.busyActions) == len(p.actions) && len(p.actionInfos) == len(p.actions)
+//@   ensures rangeindex#2 >= len(p.busyActions) - 1 || p.busyActionsTotal == 0
+//@   loop 1 invariant parent != nil && nextActionIdx >= 1 && len(p.busyActions) == old(len(p.busyActions)) && len(p.busyActions) == len(p.actions) && len(p.actionInfos) == len(p.actions)
+//@   loop 2 invariant parent != nil && len(p.busyActions) == old(len(p.busyActions)) && len(p.busyActions) == len(p.actions) && len(p.actionInfos) == len(p.actions)
+//@   callee newTimeoutEvent(s) (t)
+//@     pure
+//@     ensures t != nil && fresh(t)
+//@   callee Spawn() (r)
+//@     pure
+//@     ensures r != nil
+//@   callee MutateToNode(n) (r)
+//@     pure
+//@   callee Out(e)
+//@     preserves processor
